@@ -273,6 +273,7 @@ MUTANTS += [
 
 MUTANTS += [
     ("c02_float32_point_regression", "C02", "solver.py", "    xm, ym = (float(c) for c in meas_pt)\n", "    xm, ym = meas_pt\n"),
+    ("c20_integer_base_regression", "C20", "utils.py", "    g_rescaled = np.empty_like(g_flat, dtype=M_shifted.dtype)\n", "    g_rescaled = np.empty_like(g_flat)\n"),
 ]
 
 MUTANTS += [
